@@ -94,6 +94,7 @@ pub fn run(ctx: &Ctx) -> i32 {
         cfg.groups = i % 5 == 0;
         cfg.links = false;
         cfg.big = true;
+        cfg.bg_tilemap = true;
         cfg.max_layers = 4;
         cfg.max_frames = 3;
         cfg.max_w = 40;
